@@ -74,7 +74,7 @@ DOCS = (
     [['**kern', '**kern', '**dynam'], ['4c', '4e', 'f'], [], [], ['4d', '4f', 'p'], ['*^', '*', '*'], ['4g', '4a', '4b', '.'], ['*v', '*v', '*', '*'], ['2cc', '2dd', 'mf'], ['*-', '*-', '*-']],
     [['!!!COM: x'], ['**kern'], ['4c'], ['4d'], ['4e'], ['4f'], ['*-']],
 )
-KERN_BAD = ('4zz', '4c§', '%%', '4c 4', 'c4z', '')     # '' = a cell truncated to nothing (two adjacent TABs)     # malformed in a **kern spine (raise on a fresh importer on the pinned tree)
+KERN_BAD = ('4zz', '4c§', '%%', '4c 4', 'c4z', '', '4d ', ' 4e')     # '' = a cell truncated to nothing (two adjacent TABs)     # malformed in a **kern spine (raise on a fresh importer on the pinned tree)
 
 
 @native
@@ -172,8 +172,8 @@ def _b_body(di, mask, bad):
 # ------------------------------------------------------------------ C12.b2 stub tier: arbitrary malformed text
 def ob_b2(s: str, blank: int, col: int, second: bool) -> bool:
     """Importer.run / ErrorToken / export preserve ANY rejected text and report it once with its line."""
-    assume(1 <= len(s) <= ctx.pick(5, 8))
-    assume(not s.startswith('*') and not s.startswith('!') and not s.startswith('**'))
+    assume(1 <= len(s) <= ctx.pick(4, 7))
+    assume(not s.startswith('*') and not s.startswith('!'))
     assume('\t' not in s and '\n' not in s and '\r' not in s)
     assume('@' not in s and '·' not in s)          # open finding KF-C03-separator-chars (plain export strips them from any token)
     assume(0 <= blank <= 2 and 0 <= col < 2)
@@ -251,15 +251,15 @@ OBLIGATIONS = [
     Ob(id='C12.b', fn=ob_b, title='documents x damage masks: one error per malformed cell with its line, other tokens untouched, verbatim export',
        shard_of=lambda d, mask, bad: mask, shards={'quick': 8, 'thorough': 16}, budget_s={'quick': 150, 'thorough': 1200},
        witnesses=[{'d': 0, 'mask': 5, 'bad': 0}], min_confirmed=300, enumerated='document, damage mask over the **kern data cells, malformed-kind rotation',
-       bounds={'quick': '3 documents (blank lines, global comments, split/join, non-kern spines) x every subset of the first 6 data cells x 6 malformed kinds (incl. the empty cell)',
+       bounds={'quick': '3 documents (blank lines, global comments, split/join, non-kern spines) x every subset of the first 6 data cells x 8 malformed kinds (incl. the empty cell and cells with a blank at either end)',
                'thorough': 'first 8 data cells'}),
     Ob(id='C12.b2', fn=ob_b2, title='stub tier: ANY rejected text is wrapped once, reported with its line, exported verbatim',
-       budget_s={'quick': 150, 'thorough': 1200}, shard_of=lambda s, blank, col, second: blank + 3 * col, shards={'quick': 6, 'thorough': 6},
+       budget_s={'quick': 170, 'thorough': 1800}, per_path_s=150.0, shard_of=lambda s, blank, col, second: blank + 3 * col + 6 * (1 if second else 0), shards={'quick': 12, 'thorough': 12},
        witnesses=[{'s': '4zz', 'blank': 1, 'col': 0, 'second': True}], min_confirmed=12,
        symbolic='malformed cell text (arbitrary string)', enumerated='blank lines before it (0..2), column, second occurrence',
        stubs=['spine importer that raises for the symbolic cell and delegates every other cell to the real KernSpineImporter'],
        assumptions=['text does not start with * or ! (other line classes), contains no TAB/CR/LF and none of the two separator characters'],
-       bounds={'quick': 'text 1..5 chars', 'thorough': 'text 1..8 chars'}),
+       bounds={'quick': 'text 1..4 chars', 'thorough': 'text 1..7 chars'}),
     Ob(id='C12.c', fn=ob_c, title='a cell is never silently shortened: token + garbage either raises or is fully accounted for',
        shard_of=lambda t, g: t, shards={'quick': 8, 'thorough': 8}, budget_s={'quick': 150, 'thorough': 900},
        witnesses=[{'t': 0, 'g': 1}], min_confirmed=100, enumerated='token from the corpus x garbage suffix',
